@@ -69,6 +69,14 @@ def build(fns):
         raise LookupError("upload_and_register_session_shards shape not recognised")
     modeb.no_path_query(g4, sc, "session shards: Ok is returned only after the staged shards were scanned / consolidated for upload", [g4.entry], sorted(g4.real_returns), cons + resid4)
     modeb.no_path_query(g4, sc, "session shards: the in-memory shard is flushed before the directory is scanned", [g4.entry], cons, fl)
+    # every shard of the consolidated list gets its own upload task: the per-shard loop has no way round the spawn
+    nxt = [b for b in g4.nodes if g4.callee(b) and re.search(r"IntoIter<(std::sync::)?Arc<(\w+::)*MDBShardFile>> as Iterator>::next$", g4.callee(b))]
+    sp = g4.blocks_calling(r"JoinSet::<.*>::spawn")
+    if nxt and sp:
+        modeb.no_path_query(g4, sc, "session shards: every shard handed back by the consolidation gets an upload task (no shard is skipped)", modeb.after(g4, nxt), nxt, sp + resid4)
+        modeb.no_path_query(g4, sc, "witness: the per-shard loop iterates", modeb.after(g4, nxt), nxt, [], expect="sat", kind="witness")
+    else:
+        sc.query("session shards: a per-shard loop spawns the upload tasks", ["true"])
     scripts.append(sc)
     return scripts
 
@@ -87,18 +95,20 @@ def replay(model, fnd, prop):
         if "test result: ok" in out:
             return False, path, "native replay passes: staged shards are uploaded with a tiny shard size limit"
         return None, path, "native replay inconclusive (rc=%s)" % rc
-    rc, out = sh(["cargo", "test", "--offline", "--test", "c11_small_file_reupload"], cwd=os.path.join(VERIF, "replay"), env=env, timeout=2400,
+    rc, out = sh(["cargo", "test", "--offline", "--test", "c11_small_file_reupload", "--test", "c11_reupload_after_cache_reset"], cwd=os.path.join(VERIF, "replay"), env=env, timeout=2400,
                  log=os.path.join(LOGS, "replay_c11.log"))
-    path = os.path.join(VERIF, "replay", "tests", "c11_small_file_reupload.rs")
+    path = os.path.join(VERIF, "replay", "tests", "c11_reupload_after_cache_reset.rs" if "reupload_after_cache_reset_is_deduplicated_later ... FAILED" in out else "c11_small_file_reupload.rs")
     if "test result: FAILED" in out:
         m = re.search(r"C11 violated: [^\n]*", out)
         return True, path, m.group(0) if m else ("native replay fails: " + (re.search(r"panicked at [^\n]*\n[^\n]*", out).group(0).replace("\n", " ")[:200] if re.search(r"panicked at [^\n]*\n[^\n]*", out) else "test failed"))
-    if "test result: ok" in out:
+    if "test result: ok" in out and "test result: FAILED" not in out:
         return False, path, "native replay passes: re-upload transfers no new bytes"
     return None, path, "native replay inconclusive (rc=%s)" % rc
 
 
 _F = ["data::file_upload_session::FileUploadSession::process_aggregated_data_as_xorb", "data::deduplication_interface::UploadSessionDataManager::register_new_xorb",
       "data::shard_interface::SessionShardInterface::upload_and_register_session_shards (spawned task)"]
-SMT = [Q("c11_registration", "xorb chunk lists reach the session shard before upload; uploaded shards are cached and registered", "data", build,
+# the chunk index of registered shards must be able to address every chunk it lists (u16 offsets are range checked): C18's obligation
+from props import c18 as _c18
+SMT = [q for q in _c18.SMT if q.name == "c18_register_shards"] + [Q("c11_registration", "xorb chunk lists reach the session shard before upload; uploaded shards are cached and registered", "data", build,
          functions=_F, bounds="all CFG paths", replay=replay, solvers=("z3", "cvc5-bv"))]
